@@ -6,6 +6,7 @@ from lib import corecase as cc
 from lib.coreprop import core_shards, run_core_shard, replay_core
 
 ID = "C02"
+REQUIRED_CLASSES = ['prea_with_2_open', 'both_ranks', 'act_after_autoprecharge', 'refresh']      # classes that must occur in every run (else harness error: vacuous generator)
 LEVEL = "exploration"
 RULE = ("case = (controller configuration biased to 2 ranks / auto-precharge / refresh every 100-200 cycles / ZQCS, multi-port traffic on colliding "
         "locations); non-trivial = a precharge-all found >= 2 banks open, or an auto-precharged bank was re-activated, or both ranks carried traffic; "
